@@ -19,7 +19,8 @@ CTX_MODES = ["fresh", "copied_before", "copied_after", "copied_after"]
 RULE_TEXT = (
     "seeded scenarios: generated world (1-3 contracted units, optional class with invariants and shared objects) x parent history "
     "(none / ran / violated / faulted) x 2-4 child actors (asyncio tasks on SimLoop or baton threads) each with a context mode "
-    "(fresh, copied before / after the parent's first checked call) and a script of 1-3 tickets x pauses / baton hand-offs; "
+    "(fresh, copied before / after the parent's first checked call) and a script of 1-3 tickets x pauses / baton hand-offs "
+    "(thread scenarios: one actor may re-run the constructor of a shared object while the others call its methods); "
     "non-trivial = two different actors had top-level calls in flight at the same time on the same function or the same object "
     "and one of those calls has a contract violation as its sequential verdict; distinct = distinct event-log digests"
 )
@@ -123,6 +124,17 @@ def generate(r, tier):
         n = 400 if scn["line_level"] else 80
         p = r.choice([0.03, 0.08]) if scn["line_level"] else r.choice([0.3, 0.5, 0.8])
         scn["choices"] = [(r.randint(1, 3) if r.random() < p else 0) for _ in range(n)]
+    if engine == "threads" and world.get("objects") and r.random() < 0.25:
+        # one actor re-runs the constructor of a shared object (obj.__init__(...)) while the others use the object: the constructor
+        # is in flight (its body hands the baton over) when their calls arrive
+        rr = r.__class__(r.getrandbits(32))  # (a PRNG of its own: the scenarios generated without this clause stay what they were)
+        objs = [o for o in world["objects"] if not o.get("builtin")]
+        hot_obj = hot["obj"] if hot["obj"] is not None else None
+        o = next((x for x in objs if x["name"] == hot_obj), None) or (rr.choice(objs) if objs else None)
+        if o is not None:
+            a = rr.choice(actors)
+            a["script"].insert(rr.randint(0, len(a["script"])), {"id": "%s.ri" % a["name"], "fn": "__init__", "op": "reinit", "obj": o["name"]})
+            scn["reinit"] = o["name"]
     return scn
 
 
